@@ -66,7 +66,7 @@ def confirm(src, sid, prop):
 
 
 def run(sid, props):
-    d = os.path.join(ROOT, "seeded", sid)
+    d = os.path.join(ROOT, os.environ.get("SEED_BASE", "seeded"), sid)
     manifest = json.load(open(os.path.join(ROOT, "MANIFEST.json")))
     claimed = [c["property_id"] for c in manifest["checks"]]
     import importlib
@@ -97,7 +97,7 @@ def run(sid, props):
     mp = os.path.join(d, "meta.json")
     meta = json.load(open(mp)) if os.path.exists(mp) else {"id": sid}
     meta.setdefault("checks_quick", {}).update(results)
-    meta["ran"] = "git -C /repo apply seeded/%s/patch.diff; ./check <Cxx> --tier quick for each property; git -C /repo checkout -- ." % sid
+    meta["ran"] = "git -C /repo apply " + os.environ.get("SEED_BASE", "seeded") + "/%s/patch.diff; ./check <Cxx> --tier quick for each property; git -C /repo checkout -- ." % sid
     json.dump(meta, open(mp, "w"), indent=1)
     return 0
 
